@@ -1,11 +1,11 @@
 /-
 C09 — model of `QXmpp::Private::StreamAckManager` (src/base/QXmppStreamManagement.cpp) together
 with the calls the `C2sStreamManager` glue makes into it (src/client/QXmppOutgoingClient.cpp:
-`onEnabled` → `enableStreamManagement(true)`, `onResumed` → `setAcknowledgedSequenceNumber(h)` then
-`enableStreamManagement(false)`, `requestResume` → `<resume h=lastIncoming/>`, `closeSession` →
-`onSessionClosed`).
+`onEnabled` → `enableStreamManagement(true)`, `onResumed` → `resumeStreamManagement(h)`,
+`onResumeFailed` → `setHandledByFailedSession(h)`, `requestResume` → `<resume h=lastIncoming/>`,
+`closeSession` → `onSessionClosed`).
 
-State = the manager's four fields plus a packet-id allocator (every `send` creates a new packet;
+State = the manager's five fields plus a packet-id allocator (every `send` creates a new packet;
 ids stand for "the promise of that packet").  `unacked` is the `QMap<unsigned, QXmppPacket>` as
 the list of its entries in key order (sequence number, packet id).  Counters are unbounded `Nat`;
 the C++ uses `unsigned int`, the 2³² wrap is outside the model (declared in props/C09.py).
@@ -28,32 +28,28 @@ def RecvKind.isStanza : RecvKind → Bool
 inductive Op
   /-- `send(QXmppPacket)`; `stanza` = `QXmppPacket::isXmppStanza()` -/
   | send (stanza : Bool) (up : Bool)
-  /-- `<a h=…/>` received → `handleAcknowledgement` -/
-  | ack (h : Nat)
+  /-- `<a h=…/>` received → `handleAcknowledgement`.  `re` = ids of the packets whose delivery-report
+  continuation *sends one new stanza at once* (from inside `reportFinished`), `up` = those writes
+  succeed; `re = []` is a client without such continuations.  Packets sent from inside a report have
+  no sending continuation themselves unless they are listed in `re` too. -/
+  | ack (h : Nat) (re : List Nat) (up : Bool)
   /-- `<r/>` received → `sendAcknowledgement` -/
   | ackReq (up : Bool)
   /-- any other element received → the counting part of `handleStanza` -/
   | recv (k : RecvKind)
   /-- `QXmppOutgoingClient::closeSession` → `onSessionClosed` -/
   | sessionClosed
-  /-- `<enabled/>` received → `enableStreamManagement(true)` -/
-  | enabledNew (up : Bool)
-  /-- `C2sStreamManager::requestResume`: writes `<resume h=lastIncoming previd=…/>` -/
+  /-- `<enabled/>` received (own element, or inside Bind2 `<bound/>`) → `enableStreamManagement(true)` -/
+  | enabledNew (re : List Nat) (up : Bool)
+  /-- `C2sStreamManager::requestResume` / `onSasl2Authenticate`: writes `<resume h=lastIncoming previd=…/>` -/
   | resumeReq (up : Bool)
-  /-- `<resumed h=…/>` received → `setAcknowledgedSequenceNumber h; enableStreamManagement(false)` -/
-  | resumed (h : Nat) (up : Bool)
-  /-- `resetCache()` (destructor, `connectToServer` with another account) -/
-  | resetCache
-  /-- `<a h=…/>` received while the client's delivery-report continuations are *re-entrant*: the
-  continuation of the "acknowledged" report of every packet whose id is in `re` sends one new stanza
-  at once (from inside `reportFinished`); `up` = those writes succeed.  `ack h` is the case `re = []`.
-  Packets sent from inside a report have no sending continuation themselves (depth one). -/
-  | ackRe (h : Nat) (re : List Nat) (up : Bool)
-  /-- `<resumed h=…/>` with re-entrant continuations, see `ackRe` -/
-  | resumedRe (h : Nat) (re : List Nat) (up : Bool)
-  /-- `<failed [h=…]/>` received in answer to `<resume/>` → `C2sStreamManager::onResumeFailed`;
-  `h` = the server's handled count, if it sent one (XEP-0198 section 5) -/
+  /-- `<resumed h=…/>` received (own element, or inside SASL2 `<success/>`) → `resumeStreamManagement(h)` -/
+  | resumed (h : Nat) (re : List Nat) (up : Bool)
+  /-- `<failed [h=…]/>` received in answer to `<resume/>` → `onResumeFailed` →
+  `setHandledByFailedSession(h)` if the server sent its handled count (XEP-0198 section 5) -/
   | resumeFailed (h : Option Nat)
+  /-- `resetCache()` (destructor, `connectToServer` with another account) -/
+  | resetCache (re : List Nat) (up : Bool)
   deriving DecidableEq, Repr
 
 /-- what a packet's task is finished with -/
@@ -86,6 +82,8 @@ structure St where
   lastOut : Nat := 0
   lastIn : Nat := 0
   nextId : Nat := 0
+  /-- `m_handledByFailedSession`: handled count of a `<failed h/>`, not yet consumed -/
+  handled : Option Nat := none
   deriving DecidableEq, Repr
 
 def init : St := {}
@@ -96,8 +94,8 @@ def emit (up : Bool) (w : Wire) : List Out := if up then [.wire w] else []
 /-- `sendAcknowledgementRequest()` -/
 def reqOut (enabled up : Bool) : List Out := if enabled then emit up .r else []
 
-/-- the entries `setAcknowledgedSequenceNumber h` reports and erases: it walks from the smallest
-key and stops at the first key `> h` -/
+/-- the entries `takeAcknowledged h` removes: it walks from the smallest key and stops at the first
+key `> h` -/
 def ackedPart (h : Nat) (l : List (Nat × Nat)) : List (Nat × Nat) := l.takeWhile fun e => e.1 ≤ h
 
 /-- … and the entries it leaves -/
@@ -125,30 +123,42 @@ def sendStep (s : St) (stanza up : Bool) : St × List Out :=
     ({ s with nextId := id + 1 },
      emit up (.pkt id) ++ [.report id (if up then .sent else .writeError), .written up])
 
-/-- the loop body of `setAcknowledgedSequenceNumber` for the entries `l` it reports, in order:
-`reportFinished(acknowledged)` runs the packet's continuation, which (if the packet is in `re`) calls
-`send` for a new stanza right there — in whatever state the manager is at that moment — and only then
-is the entry erased -/
-def fireAcked (re : List Nat) (up : Bool) : St → List (Nat × Nat) → St × List Out
+/-- `packet.reportFinished(rk)` for the packets of `l`, in order — they have already been taken out of
+the map.  Each report runs the packet's continuation, which (if the packet is in `re`) calls `send`
+for a new stanza right there, in whatever state the manager is at that moment. -/
+def fire (rk : Report) (re : List Nat) (up : Bool) : St → List (Nat × Nat) → St × List Out
   | s, [] => (s, [])
   | s, e :: t =>
     let r1 := if re.contains e.2 then sendStep s true up else (s, [])
-    let r2 := fireAcked re up r1.1 t
-    (r2.1, .report e.2 .acked :: (r1.2 ++ r2.2))
+    let r2 := fire rk re up r1.1 t
+    (r2.1, .report e.2 rk :: (r1.2 ++ r2.2))
 
-/-- `setAcknowledgedSequenceNumber h` with re-entrant continuations: the entries with key `≤ h` are
-reported one by one; the loop then goes on over whatever the continuations inserted behind them (it
-stops at the first key `> h`, so this matters only when nothing older is left and `h` is beyond the
-last number used) -/
-def ackPhase (s : St) (h : Nat) (re : List Nat) (up : Bool) : St × List Out :=
-  let r1 := fireAcked re up { s with unacked := keptPart h s.unacked } (ackedPart h s.unacked)
-  ({ r1.1 with unacked := keptPart h r1.1.unacked }, r1.2 ++ ackReports (ackedPart h r1.1.unacked))
+/-- `takeAcknowledged(*m_handledByFailedSession)` + reset of the stored count, if one is stored -/
+def takeHandled (s : St) : St × List (Nat × Nat) :=
+  match s.handled with
+  | some hf => ({ s with unacked := keptPart hf s.unacked, handled := none }, ackedPart hf s.unacked)
+  | none => (s, [])
+
+/-- the middle part of `enableStreamManagement(reset)`: switch on, renumber on a fresh session,
+write the stored packets again in key order followed by `<r/>` -/
+def enableCore (s : St) (reset up : Bool) : St × List Out :=
+  (if reset then { s with enabled := true, lastOut := s.unacked.length, lastIn := 0,
+                          unacked := renumber 0 s.unacked }
+   else { s with enabled := true },
+   if s.unacked.isEmpty then [] else resendOut up s.unacked ++ reqOut true up)
+
+/-- the loop of `resetCache` + `clear()`: every entry is reported "disconnected"; the loop runs over
+the map itself, so it also reaches what a continuation appends meanwhile (with stream management on) -/
+def discAll (re : List Nat) (up : Bool) (s : St) : St × List Out :=
+  let f := fire .disconnected re up { s with unacked := [] } s.unacked
+  ({ f.1 with unacked := [] }, f.2 ++ f.1.unacked.map fun e => .report e.2 .disconnected)
 
 def step (s : St) : Op → St × List Out
   | .send stanza up => sendStep s stanza up
-  | .ack h =>
+  | .ack h re up =>
+    -- setAcknowledgedSequenceNumber: take the covered packets out first, report afterwards
     if s.enabled then
-      ({ s with unacked := keptPart h s.unacked }, ackReports (ackedPart h s.unacked))
+      fire .acked re up { s with unacked := keptPart h s.unacked } (ackedPart h s.unacked)
     else (s, [])
   | .ackReq up =>
     (s, if s.enabled then emit up (.a s.lastIn) else [])
@@ -156,28 +166,33 @@ def step (s : St) : Op → St × List Out
     -- counted only while stream management is enabled (repo commit 6d4ec74)
     (if s.enabled && k.isStanza then { s with lastIn := s.lastIn + 1 } else s, [])
   | .sessionClosed => ({ s with enabled := false }, [])
-  | .enabledNew up =>
-    ({ s with enabled := true, lastOut := s.unacked.length, lastIn := 0,
-              unacked := renumber 0 s.unacked },
-     if s.unacked.isEmpty then [] else resendOut up s.unacked ++ reqOut true up)
+  | .enabledNew re up =>
+    -- enableStreamManagement(true): what a <failed h/> declared handled is taken out, the rest is
+    -- renumbered and written again, then the handled ones are reported
+    let t := takeHandled s
+    let e := enableCore t.1 true up
+    let f := fire .acked re up e.1 t.2
+    (f.1, e.2 ++ f.2)
   | .resumeReq up => (s, emit up (.resume s.lastIn))
-  | .resumed h up =>
-    let kept := keptPart h s.unacked
-    ({ s with enabled := true, unacked := kept },
-     ackReports (ackedPart h s.unacked) ++
-       (if kept.isEmpty then [] else resendOut up kept ++ reqOut true up))
-  | .resetCache =>
-    ({ s with unacked := [] }, s.unacked.map fun e => .report e.2 .disconnected)
-  | .ackRe h re up =>
-    if s.enabled then ackPhase s h re up else (s, [])
-  | .resumedRe h re up =>
-    -- onResumed: the reports fire *before* stream management is switched on again and before the resend
-    let r1 := ackPhase s h re up
-    ({ r1.1 with enabled := true },
-     r1.2 ++ (if r1.1.unacked.isEmpty then [] else resendOut up r1.1.unacked ++ reqOut true up))
-  | .resumeFailed _ =>
-    -- onResumeFailed only logs: the handled count of `<failed h/>` is not read
-    (s, [])
+  | .resumed h re up =>
+    -- resumeStreamManagement(h): take the covered packets out, enableStreamManagement(false) (switch
+    -- on, write the rest again), and only then report (repo commit 250563e)
+    let t := takeHandled { s with unacked := keptPart h s.unacked }
+    let e := enableCore t.1 false up
+    let f1 := fire .acked re up e.1 t.2
+    let f2 := fire .acked re up f1.1 (ackedPart h s.unacked)
+    (f2.1, e.2 ++ f1.2 ++ f2.2)
+  | .resumeFailed h =>
+    -- onResumeFailed → setHandledByFailedSession (repo commit 7bf4745)
+    (match h with
+     | some n => { s with handled := some n }
+     | none => s, [])
+  | .resetCache re up =>
+    -- first what the server is known to have handled (setAcknowledgedSequenceNumber), then the rest
+    let t := takeHandled s
+    let f := fire .acked re up t.1 t.2
+    let d := discAll re up f.1
+    (d.1, f.2 ++ d.2)
 
 def run (s : St) : List Op → St × List Out
   | [] => (s, [])
@@ -201,19 +216,22 @@ empty, otherwise the packets of `l` in list order followed by one `<r/>` -/
 def resendBlock (l : List (Nat × Nat)) : List Wire :=
   if l.isEmpty then [] else (l.map fun e => Wire.pkt e.2) ++ [Wire.r]
 
-/-- the handled count carried by the operation, for the operations that acknowledge -/
+/-- the handled count carried by the operation, for the operations that acknowledge themselves -/
 def Op.ackH : Op → Option Nat
-  | .ack h => some h
-  | .ackRe h _ _ => some h
-  | .resumed h _ => some h
-  | .resumedRe h _ _ => some h
+  | .ack h _ _ => some h
+  | .resumed h _ _ => some h
   | _ => none
 
 /-- `<a/>` (as opposed to `<resumed/>`): only honoured while stream management is on -/
 def Op.isA : Op → Bool
-  | .ack _ => true
-  | .ackRe _ _ _ => true
+  | .ack _ _ _ => true
   | _ => false
+
+/-- the stored entries not covered by the (optional) handled count `h` -/
+def beyond (h : Option Nat) (l : List (Nat × Nat)) : List (Nat × Nat) :=
+  match h with
+  | some n => l.filter fun e => decide (n < e.1)
+  | none => l
 
 /-! ### specification-side counting (independent of `step`) -/
 
@@ -222,9 +240,8 @@ elements received while it was on since the last `<enabled/>`).  A session start
 is suspended by `sessionClosed`, continues with `<resumed/>`; elements received while stream
 management is off (connection down, or an intermediate session without it) do not belong to it. -/
 def sessionCountStep (c : Bool × Nat) : Op → Bool × Nat
-  | .enabledNew _ => (true, 0)
-  | .resumed _ _ => (true, c.2)
-  | .resumedRe _ _ _ => (true, c.2)
+  | .enabledNew _ _ => (true, 0)
+  | .resumed _ _ _ => (true, c.2)
   | .sessionClosed => (false, c.2)
   | .recv k => if c.1 && k.isStanza then (c.1, c.2 + 1) else c
   | _ => c
